@@ -22,7 +22,7 @@ from pathlib import Path
 VERIF = Path(__file__).resolve().parent.parent
 COQ = VERIF / "coq"
 REPO = Path(os.environ.get("IBLNPX_REPO", "/repo"))
-EVID = VERIF / "evidence"
+EVID = Path(os.environ.get("IBLNPX_EVID", str(VERIF / "evidence")))   # redirected when a seeded change is being tested
 REPLAYS = EVID / "replays"
 KNOWN = VERIF / "known_findings.json"
 NCPU = max(2, (os.cpu_count() or 4))
